@@ -134,3 +134,113 @@ def probe_docs(rj):
     for m in rj.get('engine_probe_mismatches', []) or []:
         out.append(({'$obj': [[m['field'], {'$str': m['probe']}]]}, m['what']))
     return out
+
+
+# ---------------------------------------------------------------------------
+# order normal form of an exported tree.  It is the device that keeps a recorded (known) finding from hiding anything
+# else: the recorded C01 findings are all "the optimiser evaluates the same predicates in another order / drops a double
+# negation", which only shows through missing-vs-false underneath a negation.  Two trees that differ in nothing but that
+# have the same normal form semantics, so `orig != opt  and  norm(orig) != norm(opt)` is what the recorded findings do
+# not explain.
+
+def _top_fields(j):
+    t = j.get('t')
+    if t in ('Search', 'Nested', 'Field', 'Cast'):
+        return [bytes(j['f'])]
+    if t == 'BooleanExpression':
+        return _top_fields(j['l']) + _top_fields(j['r'])
+    if t == 'BooleanGroup':
+        return [f for g in j['g'] for f in _top_fields(g)]
+    if t in ('Negate', 'Match'):
+        return _top_fields(j['e'])
+    if t == 'Matrix':
+        return [bytes(c) for c in j['c']]
+    if t == 'Identifier':
+        return [b'\xff' + bytes(j['f'])]
+    return []
+
+
+def _restore_column(j, idx_bytes, col):
+    """a matrix cell addresses its column by a one-character key: put the field name back (not inside nested bodies)"""
+    t = j.get('t')
+    j = dict(j)
+    if t in ('Search', 'Nested', 'Field', 'Cast'):
+        if bytes(j['f']) == idx_bytes:
+            j['f'] = list(col)
+        return j
+    if t == 'BooleanExpression':
+        j['l'] = _restore_column(j['l'], idx_bytes, col)
+        j['r'] = _restore_column(j['r'], idx_bytes, col)
+    elif t == 'BooleanGroup':
+        j['g'] = [_restore_column(g, idx_bytes, col) for g in j['g']]
+    elif t in ('Negate', 'Match'):
+        j['e'] = _restore_column(j['e'], idx_bytes, col)
+    return j
+
+
+def normalise_tree(rj, idents_override=None):
+    """-> {'expr', 'idents': []}: identifiers inlined, matrices expanded to or-of-ands, and/or chains flattened,
+    members of every and/or group ordered by the first field they read (stable), double negations removed.  The
+    members of a group that is *counted* (directly under all()/of()) keep their number and order."""
+    idents = {bytes(k): v for k, v in rj['idents']}
+    if idents_override:
+        idents.update(idents_override)
+
+    def key(j):
+        fs = sorted(_top_fields(j))
+        return fs[0] if fs else b''
+
+    def group(op, members, counted=False):
+        flat = []
+        for m in members:
+            if not counted and m.get('t') == 'BooleanGroup' and m['op'] == op:
+                flat.extend(m['g'])
+            else:
+                flat.append(m)
+        if not counted:
+            flat = [m for _, _, m in sorted(((key(m), i, m) for i, m in enumerate(flat)), key=lambda x: (x[0], x[1]))]
+        if len(flat) == 1 and not counted:
+            return flat[0]
+        return {'t': 'BooleanGroup', 'op': op, 'g': flat}
+
+    def go(j, depth=0, counted=False):
+        if depth > 40:
+            raise Inconclusive('identifier cycle while normalising')
+        t = j.get('t')
+        if t == 'Identifier':
+            name = bytes(j['f'])
+            if name not in idents:
+                return j
+            return go(idents[name], depth + 1, counted)
+        if t == 'BooleanGroup':
+            return group(j['op'], [go(g, depth + 1) for g in j['g']], counted)
+        if t == 'BooleanExpression' and j['op'] in ('And', 'Or'):
+            return group(j['op'], [go(j['l'], depth + 1), go(j['r'], depth + 1)])
+        if t == 'BooleanExpression':
+            return j
+        if t == 'Negate':
+            e = go(j['e'], depth + 1)
+            if e.get('t') == 'Negate':
+                return e['e']
+            return {'t': 'Negate', 'e': e}
+        if t == 'Match':
+            return {'t': 'Match', 'm': j['m'], 'e': go(j['e'], depth + 1, counted=True)}
+        if t == 'Nested':
+            return {'t': 'Nested', 'f': j['f'], 'e': go(j['e'], depth + 1)}
+        if t == 'Matrix':
+            rows = []
+            for row in j['r']:
+                cells = []
+                for i, c in enumerate(row):
+                    if c is not None:
+                        cells.append(go(_restore_column(c, chr(i).encode('utf-8'), j['c'][i]), depth + 1))
+                rows.append(group('And', cells))
+            return group('Or', rows, counted)
+        return j
+    return {'expr': go(rj['expr']), 'idents': []}
+
+
+def counted_identifiers(rj):
+    out = []
+    any_node(rj['expr'], lambda j: j.get('t') == 'Match' and j['e'].get('t') == 'Identifier' and out.append(bytes(j['e']['f'])))
+    return sorted(set(out))
